@@ -71,6 +71,7 @@ func c19ValueSets() map[string][]interface{} {
 		"no-numbers": {"x", nil, missing, true, []interface{}{}, "x"},
 		"missing":    {missing, missing, missing},
 		"strings":    {"p", "q", "p", "", "r", "p", "q"},
+		"lookalikes": {true, "true", true, false, "false", "false", "false", nil, "null", 1.0, "one"}, // strings that print like a bool or null (numeric text is not generated)
 		"maps":       {map[string]interface{}{"a": 1.0, "b": 2.0}, map[string]interface{}{"a": "s"}, map[string]interface{}{}, 5.0, missing},
 	}
 }
@@ -159,7 +160,7 @@ func c19Gen(g *fw.GenCtx) []fw.Case {
 	}
 	// random multisets
 	rng := rand.New(rand.NewSource(g.Seed*41 + 2))
-	pool := []interface{}{missing, nil, true, 1.0, 2.0, 2.0, 3.5, -1.0, -7.25, 0.0, 10.0, "a", "b", "a", "", []interface{}{1.0}, map[string]interface{}{"k": 1.0}, 100.0, 0.5}
+	pool := []interface{}{missing, nil, true, 1.0, 2.0, 2.0, 3.5, -1.0, -7.25, 0.0, 10.0, "a", "b", "a", "", "true", "false", "null", []interface{}{1.0}, map[string]interface{}{"k": 1.0}, 100.0, 0.5}
 	n := g.Pick(1500, 20000)
 	for i := 0; i < n; i++ {
 		ln := rng.Intn(25)
